@@ -205,13 +205,19 @@ def register(db):
         f"{DD}.bind_dataclass", variant="per-key",
         params={"self": decoder, "data": "dict[str,u:Json]", "clazz": "opaque:type"},
         requires=["set(data.keys()) != self.context.class_type.derived_keys"],
-        ensures=[], raises=dict(DOCUMENTED), returns="u:Any",
+        ensures=[("the-result-is-the-object-the-class-factory-built",
+                  "called('ParserConfig.class_factory') == 1 and returned('ParserConfig.class_factory') == 1 and "
+                  "result is call_result('ParserConfig.class_factory') and call_arg('ParserConfig.class_factory', 0) is clazz")],
+        raises=dict(DOCUMENTED), returns="u:Any",
         loops=[Loop(invariants=[], header="data.items()", modifies=["params"], vars={"params": "dict[str,u:Any]"},
                     step=[("a-key-is-bound-with-the-field-find_var-selects",
                            f"implies({FV} is not None, called('{BV}') == 1 and call_arg('{BV}', 1) is meta and call_arg('{BV}', 2) is some({FV}))"),
                           ("a-plain-key-binds-its-own-value",
                            f"implies({FV} is not None and (some({FV}).wrapper is None or len(some({FV}).wrapper) == 0 or some({FV}).local_name == key), "
                            f"call_arg('{BV}', 3) == data[key])"),
+                          ("a-wrapper-key-binds-the-wrapped-value",
+                           f"implies({FV} is not None and some({FV}).wrapper is not None and len(some({FV}).wrapper) > 0 and some({FV}).local_name != key, "
+                           f"call_arg('{BV}', 3) == uf('Json.item', 'u:Json|None', data[key], some({FV}).local_name))"),
                           ("the-bound-value-is-stored-under-the-field-name",
                            f"implies({FV} is not None and some({FV}).init, some({FV}).name in params and params[some({FV}).name] is call_result('{BV}'))"),
                           ("a-non-init-field-is-only-checked-against-its-fixed-value",
